@@ -32,14 +32,14 @@ PROPS = {
     "C09": (["columns", "lemmas"], "c09"),
     "C10": (["frames", "assign", "ufunc", "derived"], "c10"),
     "C11": (["hashtable"], "c11"),
-    "C12": (["hashtable", "geometry"], "c12"),
+    "C12": (["hashtable", "geometry", "indices"], "c12"),
     "C13": (["bitarray"], "c13"),
-    "C14": (["rle"], "c14"),
-    "C15": (["rle"], "c15"),
-    "C16": (["rle"], "c16"),
+    "C14": (["rle", "lemmas"], "c14"),
+    "C15": (["rle", "lemmas"], "c15"),
+    "C16": (["rle", "lemmas"], "c16"),
     "C17": (["rle2d"], "c17"),
     "C18": (["dataclass"], "c18"),
-    "C19": (["colslice", "rowsel", "indices", "derived", "geometry", "reduce", "lemmas"], "c19"),
+    "C19": (["colslice", "rowsel", "indices", "derived", "geometry", "reduce", "scans", "columns", "structural", "lemmas"], "c19"),
 }
 
 TRUSTED_BASE = [
